@@ -313,10 +313,23 @@ func ping(side ws.State, g, n int) {
 
 // readPayload sends one message of n bytes through ReadMessage/ReadData and returns the payload slice.
 func readPayload(via string, side ws.State, g, n int, chunks []int) ([]byte, error) {
+	return readPayloadF(via, side, g, n, chunks, 1)
+}
+
+// readPayloadF sends the message split into frags fragments (>= 1).
+func readPayloadF(via string, side ws.State, g, n int, chunks []int, frags int) ([]byte, error) {
 	p := []byte(word(g, 52, n))
 	masked := side.ServerSide()
-	f := ref.Frame{H: ref.Header{Fin: true, Op: ref.OpBinary, Masked: masked, Mask: [4]byte{byte(g), 2, 3, 4}}, Payload: p}
-	src := tx.NewSrc(f.Encode(), chunks)
+	var frames []ref.Frame
+	for i := 0; i < frags; i++ {
+		lo, hi := n*i/frags, n*(i+1)/frags
+		op := byte(ref.OpBinary)
+		if i > 0 {
+			op = ref.OpCont
+		}
+		frames = append(frames, ref.Frame{H: ref.Header{Fin: i == frags-1, Op: op, Masked: masked, Mask: [4]byte{byte(g), 2, 3, byte(4 + i)}}, Payload: p[lo:hi]})
+	}
+	src := tx.NewSrc(ref.EncodeAll(frames), chunks)
 	if via == "ReadMessage" {
 		ms, err := wsutil.ReadMessage(src, side, nil)
 		if err != nil || len(ms) != 1 {
@@ -326,6 +339,37 @@ func readPayload(via string, side ws.State, g, n int, chunks []int) ([]byte, err
 	}
 	out, _, err := wsutil.ReadData(tx.RW{Reader: src, Writer: tx.NewRec()}, side)
 	return out, err
+}
+
+// poolChurn takes and returns a byte buffer of every pbytes size class through
+// library paths that use the pool (client-side writes copy the payload into a
+// pooled buffer), overwriting whatever was put back last in each class.
+func poolChurn(g int) {
+	for c := 128; c <= 65536; c *= 2 {
+		wsutil.WriteClientMessage(tx.NewRec(), ws.OpBinary, []byte(word(g, 56, c-1)))
+		wsutil.WriteClientMessage(tx.NewRec(), ws.OpBinary, []byte(word(g+1, 57, c/2+1)))
+	}
+}
+
+// controlRoundTrip reads a fragmented message with an interleaved ping through
+// ReadMessage, keeps the returned ping message, answers it with
+// HandleControlMessage and returns the kept payload slice.
+func controlRoundTrip(side ws.State, g, n int, chunks []int) ([]byte, error) {
+	masked := side.ServerSide()
+	ping := []byte(word(g, 58, n%125+1))
+	frames := []ref.Frame{
+		{H: ref.Header{Op: ref.OpText, Masked: masked, Mask: [4]byte{1, byte(g), 3, 4}}, Payload: []byte("he")},
+		{H: ref.Header{Fin: true, Op: ref.OpPing, Masked: masked, Mask: [4]byte{9, 8, byte(g), 6}}, Payload: ping},
+		{H: ref.Header{Fin: true, Op: ref.OpCont, Masked: masked, Mask: [4]byte{5, 5, 5, byte(g)}}, Payload: []byte("llo")},
+	}
+	ms, err := wsutil.ReadMessage(tx.NewSrc(ref.EncodeAll(frames), chunks), side, nil)
+	if err != nil || len(ms) != 2 || ms[0].OpCode != ws.OpPing {
+		return nil, fmt.Errorf("harness: ReadMessage with an interleaved ping: %v (%d messages)", err, len(ms))
+	}
+	if err := wsutil.HandleControlMessage(tx.NewRec(), side, ms[0]); err != nil {
+		return nil, fmt.Errorf("harness: HandleControlMessage(ping): %v", err)
+	}
+	return ms[0].Payload, nil
 }
 
 func clientWrite(g, n int) {
@@ -341,7 +385,7 @@ func clientWrite(g, n int) {
 
 var resultKinds = []string{
 	"Upgrader/Protocol+Extension", "Upgrader/Negotiate:wsflate", "HTTPUpgrader/Protocol+Extension", "HTTPUpgrader/Negotiate:wsflate",
-	"Dialer", "ClosedError", "ReadMessage", "ReadData",
+	"Dialer", "ClosedError", "ReadMessage", "ReadData", "ReadMessage/fragmented", "ReadData/fragmented", "ReadMessage+HandleControlMessage",
 }
 
 func TestResultsSurvivePoolReuse(t *testing.T) {
@@ -388,6 +432,21 @@ func TestResultsSurvivePoolReuse(t *testing.T) {
 			var ce wsutil.ClosedError
 			ce, err = closeReason(side, 0, size)
 			live = func() string { return strings.Clone(fmt.Sprintf("%d %s", ce.Code, ce.Reason)) }
+		case "ReadMessage+HandleControlMessage":
+			var p []byte
+			p, err = controlRoundTrip(side, 0, size, chunks)
+			want := word(0, 58, size%125+1)
+			live = func() string { return string(p) }
+			if err == nil && string(p) != want {
+				t.Fatalf("the ping payload returned by ReadMessage was changed by HandleControlMessage answering it: %q, want %q (side %v)", p, want, side)
+			}
+		case "ReadMessage/fragmented", "ReadData/fragmented":
+			var p []byte
+			p, err = readPayloadF(strings.SplitN(kind, "/", 2)[0], side, 0, size, chunks, rapid.IntRange(2, 4).Draw(t, "frags"))
+			live = func() string { return string(p) }
+			if err == nil && string(p) != word(0, 52, size) {
+				t.Fatalf("harness: fragmented message delivered wrong")
+			}
 		default:
 			var p []byte
 			p, err = readPayload(kind, side, 0, size, chunks)
@@ -408,7 +467,7 @@ func TestResultsSurvivePoolReuse(t *testing.T) {
 		sameClass := false
 		var trace []string
 		for g := 1; g <= nsteps; g++ {
-			op := rapid.SampledFrom([]string{"same", "same", "upgrade", "dial", "close", "ping", "read", "clientwrite"}).Draw(t, "op")
+			op := rapid.SampledFrom([]string{"same", "same", "upgrade", "dial", "close", "ping", "read", "clientwrite", "poolchurn", "readfrag"}).Draw(t, "op")
 			if op == "same" {
 				switch {
 				case strings.HasPrefix(kind, "Upgrader"), strings.HasPrefix(kind, "HTTPUpgrader"):
@@ -417,6 +476,10 @@ func TestResultsSurvivePoolReuse(t *testing.T) {
 					op = "dial"
 				case kind == "ClosedError":
 					op = "close"
+				case strings.HasSuffix(kind, "/fragmented"):
+					op = "readfrag"
+				case kind == "ReadMessage+HandleControlMessage":
+					op = "control"
 				default:
 					op = "read"
 				}
@@ -441,6 +504,13 @@ func TestResultsSurvivePoolReuse(t *testing.T) {
 				readPayload("ReadData", side, g, size, chunks)
 			case "clientwrite":
 				clientWrite(g, size)
+			case "poolchurn":
+				poolChurn(g)
+			case "readfrag":
+				readPayloadF("ReadMessage", side, g, size, chunks, 3)
+				readPayloadF("ReadData", side, g, size, chunks, 2)
+			case "control":
+				controlRoundTrip(side, g, size, chunks)
 			}
 			if now := live(); now != snapshot {
 				t.Fatalf("%s result changed after follow-up step %d (%v):\n  before: %q\n  after:  %q\nshape: %+v size=%d", kind, g, trace, snapshot, now, s, size)
